@@ -1,5 +1,6 @@
 -- root of the library: every property module (kept in sync with bin/props.py)
 import UgoVerif.Props.C15
+import UgoVerif.Props.C06
 import UgoVerif.Props.C17
 import UgoVerif.Props.C13
 import UgoVerif.Props.C20
